@@ -221,7 +221,11 @@ fn parse_build_time(text: &str) -> Option<(i64, u32)> {
         return None;
     }
 
-    let (year, month, day) = (number(text, 0..4)?, number(text, 5..7)?, number(text, 8..10)?);
+    let (year, month, day) = (
+        number(text, 0..4)?,
+        number(text, 5..7)?,
+        number(text, 8..10)?,
+    );
     let (hour, minute, second) = (
         number(text, 11..13)?,
         number(text, 14..16)?,
@@ -342,17 +346,21 @@ impl BuildDatabase {
         // Sort each product's builds by build_time (newest first). Timestamps
         // are compared as instants: the same moment can be written with
         // different UTC offsets, 'Z' or fractional seconds, so the text order
-        // is not the time order. Text that is not an RFC 3339 date-time with
-        // an offset sorts after all parsed timestamps, in text order as before.
+        // is not the time order. This needs every timestamp of the product to
+        // be an RFC 3339 date-time with an offset; if one is written in another
+        // notation the product keeps the plain text order used before.
         for builds in builds_by_product.values_mut() {
-            builds.sort_by(|a, b| {
-                let key_a = (parse_build_time(&a.build_time), a.build_time.as_str());
-                let key_b = (parse_build_time(&b.build_time), b.build_time.as_str());
-                match (key_a.0, key_b.0) {
-                    (Some(ia), Some(ib)) => ib.cmp(&ia),
-                    _ => key_b.cmp(&key_a),
-                }
-            });
+            let instants: Option<Vec<(i64, u32)>> = builds
+                .iter()
+                .map(|build| parse_build_time(&build.build_time))
+                .collect();
+            if instants.is_some() {
+                builds.sort_by_cached_key(|build| {
+                    std::cmp::Reverse(parse_build_time(&build.build_time))
+                });
+            } else {
+                builds.sort_by(|a, b| b.build_time.cmp(&a.build_time));
+            }
         }
 
         let total_builds = builds_by_product.values().map(Vec::len).sum();
@@ -459,5 +467,29 @@ mod tests {
 
         let err = BuildDatabase::from_file(temp_file.path()).unwrap_err();
         assert!(matches!(err, DatabaseError::EmptyDatabase));
+    }
+
+    #[test]
+    fn build_time_is_compared_as_an_instant() {
+        // the same instant in three notations
+        let a = parse_build_time("2024-01-01T12:00:00+00:00");
+        assert!(a.is_some());
+        assert_eq!(a, parse_build_time("2024-01-01T12:00:00Z"));
+        assert_eq!(a, parse_build_time("2024-01-01T14:00:00+02:00"));
+        assert_eq!(a, parse_build_time("2024-01-01T07:00:00-05:00"));
+        // later instant although the text sorts earlier
+        assert!(
+            parse_build_time("2024-01-01T00:30:00-02:00")
+                > parse_build_time("2024-01-01T01:00:00+00:00")
+        );
+        // fractional seconds and leap day
+        assert!(
+            parse_build_time("2024-02-29T00:00:00.5Z") > parse_build_time("2024-02-29T00:00:00Z")
+        );
+        assert_eq!(parse_build_time("1970-01-01T00:00:00Z"), Some((0, 0)));
+        // other notations are left to the text order
+        assert_eq!(parse_build_time("2024-01-01T12:00:00"), None);
+        assert_eq!(parse_build_time("2024-01-01 12:00:00Z"), None);
+        assert_eq!(parse_build_time("20240101T120000Z"), None);
     }
 }
